@@ -3,8 +3,9 @@
    resolve_callee, to_continuation, restore_continuation = builtin/procedure.rs
    119-134, run.rs 157-166 / 189-198, continuation.rs, stack.rs 184-200), for ANY
    table [ob] of the other builtin procedures.                                   *)
-From MW Require Import Model.Base Model.Datum Model.VmTypes Model.Heap Model.VmBase Model.Vm
-  Proofs.HeapProofs Proofs.VmProofs.
+From MW Require Import Model.Base Model.Datum Model.VmTypes Model.Heap Model.Gc Model.VmBase Model.Vm
+  Model.Builtins Proofs.HeapProofs Proofs.VmProofs Proofs.SymtabProofs Proofs.QuoteHeapProofs
+  Proofs.RunProofs Proofs.CompileCorrect Proofs.ContProofs Proofs.ContExample.
 Open Scope N_scope.
 
 (* Capture.  The machine is at a CALL/TCALL (instruction pointer already past it)
@@ -80,3 +81,301 @@ Theorem C05_k_zero_args : forall ob s cid,
   exists s', resolve_callee ob s = RErr E_OTHER [] s'.
 Proof. exact k_zero_args. Qed.
 Print Assumptions C05_k_zero_args.
+
+
+(* =================================================================================
+   The three clauses of the property as STATE EQUATIONS (proofs: Proofs/ContProofs.v;
+   the concrete run of the examples: Proofs/ContExample.v).
+
+   Vocabulary (definitions of ContProofs.v, spelled out by the _unfold theorems):
+   [at_callcc ob m lp i bc tail fp pv]  m is AT the CALL (tail = false) or TCALL instruction
+        i of the code object at heap address lp, %acc holds a builtin whose procedure is
+        call/cc (builtin/procedure.rs call_cc), the stack top is [VPtr fp; Argc 1] and heap
+        cell fp holds the procedure pv (the receiver);
+   [s_cap m lp i fp]   the state one instruction later; [k_cap m lp i] the continuation it saved;
+   [called s lp i lamp]  the state the CALL instruction (lp, i) produces from s when the callee
+        is the code object lamp: ip past the call, %ep and the return address pushed;
+   [in_cc_frame m lp i mr]  mr is inside the frame CALL + ENTER built for the receiver;
+   [at_invoke s cid tail]  s is AT a CALL / TCALL, %acc holds the continuation cid, the stack
+        top is [v; Argc n], n >= 1;
+   [klive cid k s]   the continuation object cid = k is still in the machine (conts table) and
+        the stack vector is at least as long as the saved stack (it never shrinks).
+   ================================================================================= *)
+Theorem C05_s_cap_unfold : forall m lp i fp,
+  s_cap m lp i fp =
+  let s := with_ip m (lp, i + 1) in
+  let k := mk_cont (stack_to_sp (with_sp s (sp s - 2))) (sp s - 2) (ep s) (ip s) (bp s) in
+  let s1 := with_heap (with_store (with_sp s (sp s - 2)) (snd (new_cont (st s) k)))
+                      (snd (heap_put (hp s) (VCont (next_id (st s))))) in
+  with_acc (with_ip (pushed (pushed s1 (fst (heap_put (hp s) (VCont (next_id (st s)))))) (VArgc 1))
+                    (lp, i + 1 - 1)) (VPtr fp).
+Proof. reflexivity. Qed.
+Print Assumptions C05_s_cap_unfold.
+
+Theorem C05_k_cap_unfold : forall m lp i,
+  k_cap m lp i = mk_cont (stack_to_sp (with_sp m (sp m - 2))) (sp m - 2) (ep m) (lp, i + 1) (bp m).
+Proof. reflexivity. Qed.
+Print Assumptions C05_k_cap_unfold.
+
+Theorem C05_called_unfold : forall s lp i lamp,
+  called s lp i lamp =
+  with_ip (pushed (pushed (with_ip s (lp, i + 1)) (VEp (ep s))) (VIp lp (i + 1))) (lamp, 0).
+Proof. reflexivity. Qed.
+Print Assumptions C05_called_unfold.
+
+Theorem C05_inv_state_unfold : forall s k,
+  inv_state s k =
+  mk_vm (hp s) (st s) (g_bind s) (g_slots s) (write_slots (k_stack k) 0 (stack s)) (scap s)
+        (k_sp k) (k_bp k) (k_ep k) (k_ip k) (sget s (sp s - 1)) (out_log s).
+Proof. reflexivity. Qed.
+Print Assumptions C05_inv_state_unfold.
+
+(* (a) (call/cc f) IS the call (f k).  ONE instruction after the CALL / TCALL of call/cc
+   the machine is at the SAME instruction again (b_call_cc steps %ip back), %acc holds the
+   receiver and the stack top is [k; Argc 1]: literally the state in which the ordinary
+   application (f k) executes its CALL / TCALL — whatever kind of procedure f is. *)
+Theorem C05_callcc_step : forall ob m lp i bc tail fp pv,
+  at_callcc ob m lp i bc tail fp pv -> run_one ob m = ROk false (s_cap m lp i fp).
+Proof. exact callcc_step. Qed.
+Print Assumptions C05_callcc_step.
+
+(* that state, field by field (heap_inv: the free list / symbol table invariant of
+   Proofs/SymtabProofs.v; it holds in every state the real machine reaches, Proofs/FlatAll.v):
+   the continuation object is in a FRESH heap cell kp and holds slots 0..=sp-2 (the stack
+   below the receiver), sp-2, %ep, %bp and the address of the instruction AFTER the call;
+   the receiver is where it was; nothing else changed (cext: heap and Rc tables only grew). *)
+Theorem C05_callcc_state : forall ob m lp i bc tail fp pv,
+  at_callcc ob m lp i bc tail fp pv -> heap_inv (hp m) -> allocated (hp m) fp ->
+  let sc := s_cap m lp i fp in
+  let k := k_cap m lp i in
+  let cid := next_id (st m) in
+  exists kp,
+    allocated (hp sc) kp /\ cell_at (hp sc) kp = VCont cid /\ ~ allocated (hp m) kp /\
+    tget (conts (st sc)) cid = Some k /\ next_id (st sc) = cid + 1 /\
+    (forall j, j <> cid -> tget (conts (st sc)) j = tget (conts (st m)) j) /\
+    k_sp k = sp m - 2 /\ k_ep k = ep m /\ k_ip k = (lp, i + 1) /\ k_bp k = bp m /\
+    len (k_stack k) = sp m - 2 + 1 /\
+    (forall j, j <= sp m - 2 -> nth (N.to_nat j) (k_stack k) VUndef = sget m j) /\
+    ip sc = (lp, i) /\ code_in sc lp bc /\ acc sc = VPtr fp /\ heap_get (hp sc) fp = Ok pv /\
+    sp sc = sp m /\ scap sc = scap m /\
+    sget sc (sp sc) = VArgc 1 /\ sget sc (sp sc - 1) = VPtr kp /\
+    (forall j, j <> sp m -> j <> sp m - 1 -> sget sc j = sget m j) /\
+    bp sc = bp m /\ ep sc = ep m /\ g_bind sc = g_bind m /\ g_slots sc = g_slots m /\
+    out_log sc = out_log m /\
+    heap_inv (hp sc) /\ cext m sc /\ envs (st sc) = envs (st m).
+Proof. exact s_cap_spec. Qed.
+Print Assumptions C05_callcc_state.
+
+(* f a closure (every (lambda ...) expression evaluates to one): the second instruction is
+   the ordinary CALL of f — the same function [called] of the state that describes the CALL
+   of that closure from ANY state (last clause): same frame, with k as the argument. *)
+Theorem C05_callcc_is_call : forall ob m lp i bc fp lamp cep,
+  at_callcc ob m lp i bc false fp (VClosure lamp cep) -> heap_inv (hp m) -> allocated (hp m) fp ->
+  let sc := s_cap m lp i fp in
+  run_one ob m = ROk false sc /\
+  ip sc = (lp, i) /\ acc sc = VPtr fp /\ heap_get (hp sc) fp = Ok (VClosure lamp cep) /\
+  sget sc (sp sc) = VArgc 1 /\
+  (exists kp, sget sc (sp sc - 1) = VPtr kp /\ cell_at (hp sc) kp = VCont (next_id (st m)) /\
+              tget (conts (st sc)) (next_id (st m)) = Some (k_cap m lp i)) /\
+  run_one ob sc = ROk false (called sc lp i lamp) /\
+  (forall m' lp' i' bc' a, code_in m' lp' bc' -> ip m' = (lp', i') -> seg bc' i' [VOp OCallAcc] ->
+     acc m' = VPtr a -> heap_get (hp m') a = Ok (VClosure lamp cep) ->
+     run_one ob m' = ROk false (called m' lp' i' lamp)).
+Proof. exact callcc_is_call. Qed.
+Print Assumptions C05_callcc_is_call.
+
+(* the frame of the called state: return address = the instruction after the call/cc site,
+   saved %ep, Argc 1, the argument k, and the stack below as it was *)
+Theorem C05_callcc_called_frame : forall ob m lp i bc fp pv lamp,
+  at_callcc ob m lp i bc false fp pv -> heap_inv (hp m) -> allocated (hp m) fp ->
+  let c := called (s_cap m lp i fp) lp i lamp in
+  sp c = sp m + 2 /\ bp c = bp m /\ ep c = ep m /\ ip c = (lamp, 0) /\ acc c = VPtr fp /\
+  sget c (sp m + 2) = VIp lp (i + 1) /\ sget c (sp m + 1) = VEp (ep m) /\ sget c (sp m) = VArgc 1 /\
+  (exists kp, sget c (sp m - 1) = VPtr kp /\ cell_at (hp c) kp = VCont (next_id (st m))) /\
+  (forall j, j <= sp m - 2 -> sget c j = sget m j) /\
+  hp c = hp (s_cap m lp i fp) /\ st c = st (s_cap m lp i fp) /\ scap m <= scap c.
+Proof. exact called_slots. Qed.
+Print Assumptions C05_callcc_called_frame.
+
+(* f a closure-less lambda: the same, the callee is the lambda itself *)
+Theorem C05_callcc_lambda : forall ob m lp i bc fp lid,
+  at_callcc ob m lp i bc false fp (VLambda lid) -> heap_inv (hp m) -> allocated (hp m) fp ->
+  steps ob 2 m = Some (called (s_cap m lp i fp) lp i fp).
+Proof. exact callcc_lambda. Qed.
+Print Assumptions C05_callcc_lambda.
+
+(* f another continuation k2: (call/cc k2) invokes k2 with the NEW continuation as its value:
+   two instructions lead to k2's saved stack and registers with %acc = k *)
+Theorem C05_callcc_cont : forall ob m lp i bc tail fp cid2 k2,
+  at_callcc ob m lp i bc tail fp (VCont cid2) -> heap_inv (hp m) -> allocated (hp m) fp ->
+  klive cid2 k2 m -> cid2 < next_id (st m) ->
+  exists kp, sget (s_cap m lp i fp) (sp m - 1) = VPtr kp /\
+    cell_at (hp (s_cap m lp i fp)) kp = VCont (next_id (st m)) /\
+    steps ob 2 m = Some (inv_state (s_cap m lp i fp) k2) /\
+    acc (inv_state (s_cap m lp i fp) k2) = VPtr kp.
+Proof. exact callcc_cont. Qed.
+Print Assumptions C05_callcc_cont.
+
+(* f a builtin procedure b2: it runs on the captured state, i.e. with the one argument k on
+   the stack, and its (boxed) result goes to %acc like for any builtin call *)
+Theorem C05_callcc_builtin : forall ob m lp i bc tail fp b2 r m2 v' h',
+  at_callcc ob m lp i bc tail fp (VBuiltin b2) -> heap_inv (hp m) -> allocated (hp m) fp ->
+  run_builtin ob b2 (with_ip (s_cap m lp i fp) (lp, i + 1)) = ROk r m2 ->
+  (match r with VPtr _ => (r, hp m2) | _ => heap_maybe_put (hp m2) r end) = (v', h') ->
+  steps ob 2 m = Some (with_acc (with_heap m2 h') v').
+Proof. exact callcc_builtin. Qed.
+Print Assumptions C05_callcc_builtin.
+
+(* invoking a continuation is ONE instruction (C05_k_invoke at the level of run_one) *)
+Theorem C05_invoke_step : forall ob s cid k tail,
+  at_invoke s cid tail -> klive cid k s -> run_one ob s = ROk false (inv_state s k).
+Proof. exact step_invoke. Qed.
+Print Assumptions C05_invoke_step.
+
+(* the receiver's frame: what ENTER leaves (the conclusions of FrameSteps.step_enter_closure /
+   CompileCorrect.step_enter_top have this shape) is [in_cc_frame], and code that respects its
+   frame ([frame], the frame condition of C01_fragment_correct / C01_fragment2_correct) keeps it *)
+Theorem C05_in_cc_frame_unfold : forall m lp i mr,
+  in_cc_frame m lp i mr <->
+  bp mr = sp m - 1 /\ sget mr (sp m) = VArgc 1 /\ sget mr (sp m + 1) = VEp (ep m) /\
+  sget mr (sp m + 2) = VIp lp (i + 1) /\ sget mr (sp m + 3) = VBp (bp m) /\
+  (forall j, j <= sp m - 2 -> sget mr j = sget m j) /\ sp m + 3 < scap mr.
+Proof.
+  intros. split.
+  - intros [H1 H2 H3 H4 H5 H6 H7]. repeat split; assumption.
+  - intros (H1 & H2 & H3 & H4 & H5 & H6 & H7). constructor; assumption.
+Qed.
+Print Assumptions C05_in_cc_frame_unfold.
+
+Theorem C05_enter_in_cc_frame : forall ob m lp i bc fp pv lamp m',
+  at_callcc ob m lp i bc false fp pv -> heap_inv (hp m) -> allocated (hp m) fp ->
+  let c := called (s_cap m lp i fp) lp i lamp in
+  bp m' = sp c - 3 -> sget m' (sp c + 1) = VBp (bp c) ->
+  (forall j, j <> sp c + 1 -> sget m' j = sget c j) -> sp c + 1 < scap m' ->
+  in_cc_frame m lp i m'.
+Proof. exact enter_in_cc_frame. Qed.
+Print Assumptions C05_enter_in_cc_frame.
+
+Theorem C05_in_cc_frame_preserved : forall m lp i a b,
+  in_cc_frame m lp i a -> sp m + 3 <= sp a -> frame a b -> sp b < scap b -> in_cc_frame m lp i b.
+Proof. exact in_cc_frame_preserved. Qed.
+Print Assumptions C05_in_cc_frame_preserved.
+
+(* (b) "continues as if call/cc had returned v", as a state equation.
+   m: the machine at the CALL of call/cc.  mr: the receiver about to return normally — at its
+   RET, inside the frame built on the captured state, %acc = v.  s': ANY later machine — any
+   call depth, a later top-level evaluation, heap / store / globals mutated at will — in which
+   the continuation object is still there ([klive]) and which is about to apply it to v.
+   Then the state after the invocation (s_inv) and the state after the normal return (s_ret)
+   agree on sp, bp, ep, ip — the instruction after the call/cc site —, %acc = v and every
+   stack slot up to sp ([same_cont_state]); heap, Rc payloads, globals, output log and stack
+   capacity of s_inv are those of s' (mutations since the capture stay visible); and the
+   continuation is still live in s_inv: the theorem applies again to s_inv and to every later
+   state that keeps it (any number of times). *)
+Theorem C05_invoke_equals_return : forall ob m lp i bc fp pv mr lq iq bq s' tail' v,
+  at_callcc ob m lp i bc false fp pv ->
+  in_cc_frame m lp i mr -> code_in mr lq bq -> ip mr = (lq, iq) -> seg bq iq [VOp ORet] -> acc mr = v ->
+  klive (next_id (st m)) (k_cap m lp i) s' -> at_invoke s' (next_id (st m)) tail' ->
+  sget s' (sp s' - 1) = v ->
+  exists s_ret s_inv,
+    run_one ob mr = ROk false s_ret /\ run_one ob s' = ROk false s_inv /\
+    (sp s_inv = sp s_ret /\ bp s_inv = bp s_ret /\ ep s_inv = ep s_ret /\ ip s_inv = ip s_ret /\
+     acc s_inv = acc s_ret /\ forall j, j <= sp s_ret -> sget s_inv j = sget s_ret j) /\
+    sp s_ret = sp m - 2 /\ bp s_ret = bp m /\ ep s_ret = ep m /\ ip s_ret = (lp, i + 1) /\ acc s_ret = v /\
+    (forall j, j <= sp m - 2 -> sget s_ret j = sget m j) /\
+    hp s_inv = hp s' /\ st s_inv = st s' /\ g_bind s_inv = g_bind s' /\ g_slots s_inv = g_slots s' /\
+    out_log s_inv = out_log s' /\ scap s_inv = scap s' /\
+    klive (next_id (st m)) (k_cap m lp i) s_inv.
+Proof. exact invoke_equals_return. Qed.
+Print Assumptions C05_invoke_equals_return.
+
+(* [klive] holds in the captured state, is kept by invoking (any continuation), and by every
+   cext-style extension that also keeps the continuation table and the stack vector ([kext]);
+   a machine whose heap was MUTATED (set-car!, vector-set!) is not a cext-extension, which is
+   why the theorem above asks for [klive] only *)
+Theorem C05_klive_captured : forall ob m lp i bc tail fp pv,
+  at_callcc ob m lp i bc tail fp pv -> heap_inv (hp m) -> allocated (hp m) fp ->
+  klive (next_id (st m)) (k_cap m lp i) (s_cap m lp i fp) /\
+  next_id (st m) < next_id (st (s_cap m lp i fp)).
+Proof. exact klive_s_cap. Qed.
+Print Assumptions C05_klive_captured.
+
+Theorem C05_klive_after_invoke : forall cid k s k', klive cid k s -> klive cid k (inv_state s k').
+Proof. exact klive_inv_state. Qed.
+Print Assumptions C05_klive_after_invoke.
+
+Theorem C05_kext_klive : forall cid k s s',
+  klive cid k s -> cid < next_id (st s) ->
+  cext s s' -> (forall j, j < next_id (st s) -> tget (conts (st s')) j = tget (conts (st s)) j) ->
+  scap s <= scap s' -> klive cid k s'.
+Proof. intros cid k s s' K C X Kc Cap. apply (kext_klive cid k s s' K C). constructor; assumption. Qed.
+Print Assumptions C05_kext_klive.
+
+(* (c) an escape discards the frames pushed since the capture: whatever the depth of the
+   invoking state, sp / bp / ep / ip and the stack up to sp are those of the capture (= those
+   after the normal return, C05_invoke_equals_return); the slots above are dead *)
+Theorem C05_escape_discards : forall ob m lp i bc tail fp pv s' tail',
+  at_callcc ob m lp i bc tail fp pv ->
+  klive (next_id (st m)) (k_cap m lp i) s' -> at_invoke s' (next_id (st m)) tail' ->
+  exists s_inv, run_one ob s' = ROk false s_inv /\
+    sp s_inv = sp m - 2 /\ bp s_inv = bp m /\ ep s_inv = ep m /\ ip s_inv = (lp, i + 1) /\
+    (forall j, j <= sp m - 2 -> sget s_inv j = sget m j) /\
+    (forall j, sp m - 2 < j -> sget s_inv j = sget s' j).
+Proof. exact escape_discards. Qed.
+Print Assumptions C05_escape_discards.
+
+Theorem C05_escape_depth_independent : forall ob m lp i bc tail fp pv s1 s2 t1 t2,
+  at_callcc ob m lp i bc tail fp pv ->
+  klive (next_id (st m)) (k_cap m lp i) s1 -> at_invoke s1 (next_id (st m)) t1 ->
+  klive (next_id (st m)) (k_cap m lp i) s2 -> at_invoke s2 (next_id (st m)) t2 ->
+  exists r1 r2, run_one ob s1 = ROk false r1 /\ run_one ob s2 = ROk false r2 /\
+    sp r1 = sp r2 /\ bp r1 = bp r2 /\ ep r1 = ep r2 /\ ip r1 = ip r2 /\
+    forall j, j <= sp r2 -> sget r1 j = sget r2 j.
+Proof. exact escape_depth_independent. Qed.
+Print Assumptions C05_escape_depth_independent.
+
+(* ---------------------------------------------------------------------------------
+   Non-vacuity: a real run on the machine of Vm::new without the prelude (boot_with []:
+   load_builtins on vm_empty 8192), real builtin table.
+     form 0  (define kk #f)
+     form 1  (if (call/cc (lambda (k) (set! kk k) 'a)) 1 2)
+     form 2  (kk 'a)
+   cx_m = form 1 after 9 instructions: at the CALL of call/cc (code object 290, instruction
+   11), receiver = the closure in heap cell 293; cx_mr = after 16 instructions: the receiver at
+   its RET with %acc = the symbol a (cell 288); cx_s' = form 2 — a LATER top-level evaluation
+   on the machine form 1 left — after 8 instructions: at the TCALL of kk with the argument a.
+   All hypotheses of C05_callcc_is_call and C05_invoke_equals_return hold of them. *)
+Example C05_example_callcc :
+  at_callcc other_builtin cx_m 290 11 (cx_bc cx_m 290) false 293 (VClosure 289 292) /\
+  heap_inv (hp cx_m) /\ allocated (hp cx_m) 293.
+Proof. exact (conj cx_at_callcc (conj cx_m_heap_inv cx_fp_allocated)). Qed.
+
+Example C05_example_invoke :
+  at_callcc other_builtin cx_m 290 11 (cx_bc cx_m 290) false 293 (VClosure 289 292) /\
+  in_cc_frame cx_m 290 11 cx_mr /\
+  (code_in cx_mr 289 (cx_bc cx_mr 289) /\ ip cx_mr = (289, 13) /\
+   seg (cx_bc cx_mr 289) 13 [VOp ORet] /\ acc cx_mr = VPtr 288 /\
+   heap_get (hp cx_mr) 288 = Ok (VSym [97])) /\
+  klive (next_id (st cx_m)) (k_cap cx_m 290 11) cx_s' /\
+  at_invoke cx_s' (next_id (st cx_m)) true /\
+  sget cx_s' (sp cx_s' - 1) = VPtr 288 /\
+  (* the invoking state is another evaluation on a grown heap with a re-bound global *)
+  (hlen (hp cx_m) <= hlen (hp cx_s') /\ next_id (st cx_m) + 2 < next_id (st cx_s') /\
+   g_slots cx_s' <> g_slots cx_m /\ fst (ip cx_s') <> fst (ip cx_m)).
+Proof.
+  exact (conj cx_at_callcc (conj cx_in_cc_frame (conj cx_mr_at_ret (conj cx_klive
+          (conj cx_at_invoke (conj cx_arg cx_later)))))).
+Qed.
+
+(* and the model indeed computes what the theorems say: the instruction after the normal
+   return and the instruction after the later invocation both sit at (290, 12) with sp = 4,
+   bp = 0, %acc = a; both evaluations then complete with the value 1 *)
+Example C05_example_run :
+  (match steps other_builtin 1 cx_mr, steps other_builtin 1 cx_s' with
+   | Some a, Some b => ip a = (290, 12) /\ ip b = (290, 12) /\ sp a = 4 /\ sp b = 4 /\ bp a = 0 /\ bp b = 0 /\
+                       acc a = VPtr 288 /\ acc b = VPtr 288
+   | _, _ => False end) /\
+  (match eval other_builtin 1000 (cx_dat cx_F1) cx_s0, eval other_builtin 1000 (cx_dat cx_F2) cx_s1 with
+   | ROk (Done a) _, ROk (Done b) _ => a = b /\ write a = [49]
+   | _, _ => False end).
+Proof. vm_compute. repeat split. Qed.
